@@ -14,13 +14,13 @@ from tools.vlib import Outcome, sx
 from tools.props import c08_common as C
 
 MANIFEST = {
-    "level_text": "Coq theorems (Properties/C17.v, no axioms) about the run/cache state machine of Model/C08Run.v (writes in the order types.ts, commands.ts, [events.ts], index.ts, [dependency-graph.txt, .dot], record last; a failing record write is a warning), faithful instance: for every state, discovery order and position k of the failing write, a non-forced run that reaches the writes reports Failure when a file of the plan cannot be written, leaves the record untouched and exactly the first k files written; when only the record cannot be written it reports Success with all files in place and no record; afterwards the record never vouches for the current inputs; the next non-forced run regenerates everything and records the current fingerprint; a run that changes the record has written every file first. Tied to /repo by injecting each write fault (EISDIR) and an unusable output path into first runs and runs after hashed edits through the real CLI binary and BuildSystem::generate_at_build_time, followed by recovery runs, every step compared with the extracted model.",
+    "level_text": "Coq theorems (Properties/C17.v, no axioms) about the run/cache state machine of Model/C08Run.v (writes in the order types.ts, commands.ts, [events.ts], index.ts, [dependency-graph.txt, .dot], record last; a failing record write is a warning), faithful instance: for every state, discovery order and position k of the failing write, a non-forced run that reaches the writes reports Failure when a file of the plan cannot be written, leaves the record untouched and exactly the first k files written; when only the record cannot be written it reports Success with all files in place and no record; afterwards the record never vouches for the current inputs; the next non-forced run regenerates everything and records the current fingerprint; a run that changes the record has written every file first. Tied to /repo by injecting write faults at open time (EISDIR, unusable output path) and after a successful open (file pre-created as a symbolic link to /dev/full; RLIMIT_FSIZE 0, which leaves a truncated file - modelled as a step of its own) into first runs, runs after hashed edits and runs over a matching record after a lost file, through every entry point that generates - `generate`, the `init` subcommand, BuildSystem::generate_at_build_time (all compared step by step with the extracted model) and generate_from_config (no record; judged by the oracle and the write plan) - for small and > 8 KiB contents, followed by recovery runs.",
     "design_ref": "DESIGN.md section 5 C08, C14, C17; section 11 fault_recovery",
     "level_note": "Faults are whole-write failures (EISDIR, ENOTDIR/EEXIST on the output path): a crash or short write in the middle of one fs::write is not exercised and appears in the model only as 'the k-th write fails'; the history [run; edit; failing run; revert the edit; run] (an edit between fault and recovery) ends up to date over mixed files on the model and is outside the property's quantifier; a failing write of .typecache alone is reported as success with a warning (exit 0), which the check accepts because no binding is missing and no record is kept; recovery is claimed for orders with the same fingerprint (single-file projects in the check).",
     "technique": "Rocq/Coq proof over hand-written model + correspondence check (extracted OCaml vs real binary and Rust driver)"
 }
 
-RULE = ("fault: {types.ts, commands.ts, events.ts, index.ts, dependency-graph.txt, dependency-graph.dot, .typecache, output path is a "
+RULE = ("fault kinds {directory under the file name, symlink to /dev/full, RLIMIT_FSIZE 0} x entries {cli, build, init; libgen separately} x small/large content; fault: {types.ts, commands.ts, events.ts, index.ts, dependency-graph.txt, dependency-graph.dot, .typecache, output path is a "
         "regular file} x {first run, run after a hashed output-changing edit, run over a matching record after the loss of that file and/or another one}; two consecutive faults at different writes;  x {CLI, build} x {none, zod} x {visualize_deps on/off where "
         "it matters} x 13 hashed edits; each followed by removal of the "
         "obstacle and two recovery runs. All cases are non-trivial; distinct = distinct case descriptions")
@@ -39,6 +39,13 @@ def start_desc(case):
     d["cfg"]["visualize_deps"] = bool(case.get("viz"))
     if case.get("no_events"):
         d["files"][0]["events"] = []
+    if case.get("large"):
+        # types.ts and commands.ts well above the 8 KiB of a default BufWriter (index.ts and events.ts stay small)
+        for i in range(70):
+            d["files"][0]["commands"].append({"name": "bulk_command_number_%d" % i, "async": bool(i % 2), "rename_all": None,
+                                              "params": [{"name": "first_argument", "type": "u32"},
+                                                         {"name": "second_argument", "type": "Option<String>"}],
+                                              "ret": "Result<User, String>", "channels": []})
     return d
 
 
@@ -52,9 +59,18 @@ def plan_of(desc):
     return p
 
 
-def place_obstacle(w, t, plan, steps):
-    """Make the write of t fail: a directory stands where the file is to be written (the file, if any, is lost);
-    t = <outdir>: a regular file stands where the output directory should be. Returns (fault index, is binding)."""
+def place_obstacle(w, t, plan, steps, kind="dir"):
+    """Make the write of t fail. kind dir: a directory stands where the file is to be written (open fails, EISDIR; the
+    file, if any, is lost); t = <outdir>: a regular file stands where the output directory should be.
+    kind devfull: a symbolic link to /dev/full stands there: the open succeeds, the write fails (ENOSPC).
+    Returns (fault index, is binding)."""
+    if kind == "devfull":
+        os.makedirs(w.out(), exist_ok=True)
+        if os.path.isfile(w.out(t)):
+            os.remove(w.out(t))
+            steps.append(["delete", C.model_file_name(t)])
+        os.symlink("/dev/full", w.out(t))
+        return (plan.index(t), True) if t in plan else (None, False)
     if t == "<outdir>":
         if os.path.isdir(w.out()):
             shutil.rmtree(w.out())
@@ -76,10 +92,17 @@ def place_obstacle(w, t, plan, steps):
 
 
 def remove_obstacle(w, t):
-    if t == "<outdir>":
-        os.remove(w.out())
-    else:
-        os.rmdir(w.out(t))
+    """Take the obstacle away again, whatever the tool did to it (a run that deletes it must not crash the check)."""
+    p = w.out() if t == "<outdir>" else w.out(t)
+    if os.path.islink(p) or os.path.isfile(p):
+        if t != "<outdir>" and not os.path.islink(p):
+            return                      # the tool replaced the obstacle by a regular file
+        os.remove(p)
+    elif os.path.isdir(p) and t != "<outdir>":
+        try:
+            os.rmdir(p)
+        except OSError:
+            shutil.rmtree(p, ignore_errors=True)
 
 
 def run_fault(case):
@@ -106,9 +129,17 @@ def run_fault(case):
         if case.get("lost") and os.path.isfile(w.out(case["lost"])):
             os.remove(w.out(case["lost"]))
             steps.append(["delete", C.model_file_name(case["lost"])])
-        k, binding = place_obstacle(w, t, plan, steps)
-        ref = C.reference(desc, case["entry"])
-        ref_rec = reference_record(desc, case["entry"])
+        kind = case.get("kind", "dir")
+        if kind == "fsize":
+            # no obstacle in the directory: the process runs with RLIMIT_FSIZE = 0, every write after an open fails
+            # (EFBIG); the first write of the plan is the one that fails, and File::create has truncated the file
+            t = plan[0]
+            k, binding = 0, True
+        else:
+            k, binding = place_obstacle(w, t, plan, steps, kind)
+        ref_entry = "cli" if case["entry"] in ("init", "libgen") else case["entry"]
+        ref = C.reference(desc, ref_entry)
+        ref_rec = reference_record(desc, ref_entry)
 
         def state(r):
             rec = w.cache_record()
@@ -119,9 +150,18 @@ def run_fault(case):
             return {"decision": r["decision"], "rc": r["rc"], "missing": mi, "different": di, "vouches": vouches,
                     "record_matches": matches, "rewritten": r["rewritten"], "text": r["text"][-300:]}
         # ---- the faulty run(s)
-        rf = w.run()
+        before_files = set(n for n, v in w.stat().items() if v != "dir")
+        rf = w.run(fsize0=(kind == "fsize"))
         steps.append(["run", sched, False, C.opt(k)])
         obs["fault"] = state(rf)
+        obs["record_matched_before"] = None
+        if kind == "fsize":
+            # what the failed write left: an empty file (the model records the truncation as a step of its own)
+            truncated = rf["decision"] == "failed" and os.path.isfile(w.out(t)) and os.path.getsize(w.out(t)) == 0
+            obs["fault"]["truncated"] = truncated
+            obs["fault"]["existed_before"] = t in before_files
+            if truncated:
+                steps.append(["corrupt", C.model_file_name(t)])
         if case.get("second"):
             remove_obstacle(w, t)
             t = case["second"]
@@ -131,7 +171,8 @@ def run_fault(case):
             obs["fault2"] = state(rf2)
             obs["binding2"] = binding2
         # ---- remove the obstacle, recover
-        remove_obstacle(w, t)
+        if kind != "fsize":
+            remove_obstacle(w, t)
         r1 = w.run()
         steps.append(["run", sched, False, None])
         mi1, di1, _ = C.stale_files(w, desc)
@@ -144,6 +185,8 @@ def run_fault(case):
     base = start_desc(case)
     obs["binding"] = binding
     obs["k"] = k
+    obs["kind"] = kind
+    obs["target"] = t
     return sx([C.sx_project(base), C.sx_cfg(base["cfg"]), steps]), obs, desc
 
 
@@ -175,18 +218,32 @@ def eval_fault(cases):
         q.append(sx([o["binding"], dec(f["decision"]), f["vouches"], not f["missing"] and not f["different"],
                      dec(r["decision"]), not r["missing"] and not r["different"], r["record_as_fresh"]]))
     orc = vlib.run_runner("c17-oracle", q)
+    # class C17-1 (extracted predicate): the failing write truncated its file while the record matched the inputs
+    kfs = vlib.run_runner("c17-kf", [sx([bool(o["fault"].get("truncated")), bool(o["fault"]["record_matches"])]) for _, o, _ in res])
     outs = []
     for case, (_, o, desc), t, ok_s in zip(cases, res, tr, orc):
         two = "fault2" in o
         runs = t[-4:] if two else t[-3:]
         mf, mr, mr2 = runs[0], runs[-2], runs[-1]
         f, r = o["fault"], o["recovery"]
-        corr = (f["decision"] == mf[0] and sorted(C.model_file_name(n) for n in f["missing"]) == sorted(mf[1])
-                and set(C.model_file_name(n) for n in f["different"]) <= set(mf[2])
-                and f["vouches"] == (mf[4] == "true")
-                and r["decision"] == mr[0] and not mr[1] and not mr[2] and not r["missing"] and not r["different"]
+        f_missing = set(C.model_file_name(n) for n in f["missing"])
+        f_diff = set(C.model_file_name(n) for n in f["different"])
+        trunc = bool(f.get("truncated"))
+        if trunc:
+            # the model's observation of the faulty run precedes its truncation step: the empty file counts as missing there
+            tn = C.model_file_name(o["target"])
+            f_diff.discard(tn)
+            if not f.get("existed_before"):
+                f_missing.add(tn)
+        corr = (f["decision"] == mf[0] and f_missing == set(mf[1]) and f_diff <= set(mf[2])
+                and (trunc or f["vouches"] == (mf[4] == "true"))
+                and r["decision"] == mr[0] and set(C.model_file_name(n) for n in r["missing"]) == set(mr[1])
+                and set(C.model_file_name(n) for n in r["different"]) <= set(mr[2])
                 and o["recovery2"]["decision"] == mr2[0])
         ok = ok_s == "true" and o["recovery2"]["decision"] == "up_to_date"
+        kf = None
+        if not ok and kfs[len(outs)] == "true":
+            kf = "C17-1"
         if two:
             f2, m2 = o["fault2"], runs[1]
             corr = corr and f2["decision"] == m2[0] and sorted(C.model_file_name(n) for n in f2["missing"]) == sorted(m2[1]) \
@@ -196,7 +253,7 @@ def eval_fault(cases):
         if not (corr and ok):
             detail["sources"] = {fl["path"]: C.render_rs(fl) for fl in desc["files"]}
             detail["config"] = C.render_cfg(desc["cfg"])
-        outs.append(Outcome(case, corr, ok, detail=detail, nontrivial=True))
+        outs.append(Outcome(case, corr, ok, kf=kf, detail=detail, nontrivial=True))
     return outs
 
 
@@ -228,9 +285,98 @@ def fault_cases(tier, rng):
                     if timing == "after_edit":
                         c["edit"] = "field_add"
                     cases.append(c)
+            # faults after a successful open: the file pre-created as a symbolic link to /dev/full (ENOSPC at the write)
+            for t in TARGETS[:6]:
+                viz = t.startswith("dependency-graph")
+                for large in (False, True):
+                    cases.append({"entry": entry, "mode": mode, "viz": viz, "target": t, "timing": "first", "kind": "devfull", "large": large})
+                    cases.append({"entry": entry, "mode": mode, "viz": viz, "target": t, "timing": "after_edit", "edit": "field_add",
+                                  "kind": "devfull", "large": large})
+                for e in ("cmd_add", "param_type"):
+                    cases.append({"entry": entry, "mode": mode, "viz": viz, "target": t, "timing": "after_edit", "edit": e, "kind": "devfull"})
+                cases.append({"entry": entry, "mode": mode, "viz": viz, "target": t, "timing": "after_loss", "kind": "devfull"})
+            # ... and RLIMIT_FSIZE = 0 (every write fails after File::create has truncated the file: a full disk)
+            for large in (False, True):
+                cases.append({"entry": entry, "mode": mode, "viz": False, "target": "types.ts", "timing": "first", "kind": "fsize", "large": large})
+                for e in ("field_add", "cmd_add"):
+                    cases.append({"entry": entry, "mode": mode, "viz": False, "target": "types.ts", "timing": "after_edit", "edit": e,
+                                  "kind": "fsize", "large": large})
+            for lost in ("types.ts", "index.ts", "events.ts", "commands.ts"):
+                cases.append({"entry": entry, "mode": mode, "viz": False, "target": "types.ts", "timing": "after_loss", "kind": "fsize", "lost": lost})
             # a project without events: events.ts is not in the plan, the obstacle is harmless
             cases.append({"entry": entry, "mode": mode, "viz": False, "target": "events.ts", "timing": "first", "no_events": True})
+    # the init subcommand runs a generation too (flags only: library, visualize_deps); every fault kind
+    for mode in ("none", "zod"):
+        for t in TARGETS:
+            viz = t.startswith("dependency-graph")
+            for kind in (("dir", "devfull") if t in TARGETS[:6] else ("dir",)):
+                cases.append({"entry": "init", "mode": mode, "viz": viz, "target": t, "timing": "first", "kind": kind})
+                cases.append({"entry": "init", "mode": mode, "viz": viz, "target": t, "timing": "after_loss", "kind": kind})
+                for e in ("field_add", "cmd_add", "param_type", "enum_variant"):
+                    cases.append({"entry": "init", "mode": mode, "viz": viz, "target": t, "timing": "after_edit", "edit": e, "kind": kind})
     return cases
+
+
+def libgen_cases():
+    cases = []
+    for mode in ("none", "zod"):
+        for large in (False, True):
+            for timing in ("first", "after_edit"):
+                for t in ("types.ts", "commands.ts", "events.ts", "index.ts"):
+                    for kind in ("dir", "devfull"):
+                        cases.append({"entry": "libgen", "mode": mode, "target": t, "kind": kind, "timing": timing, "large": large})
+                cases.append({"entry": "libgen", "mode": mode, "target": "<outdir>", "kind": "dir", "timing": timing, "large": large})
+                cases.append({"entry": "libgen", "mode": mode, "target": "types.ts", "kind": "fsize", "timing": timing, "large": large})
+    return cases
+
+
+def run_libgen(case):
+    """generate_from_config: no record is read or written, every call generates; a failing write must come back as Err."""
+    desc = start_desc(dict(case, viz=False))
+    obs = {}
+    with vlib.Sandbox("c17l") as sb:
+        w = C.World(sb, "libgen")
+        w.set_desc(desc)
+        if case["timing"] == "after_edit":
+            obs["first"] = w.run()["decision"]
+            desc = C.apply_edit(desc, "field_add")
+            w.set_desc(desc)
+        plan = [n for n in plan_of(desc) if not n.startswith("dependency-graph")]
+        t, kind = case["target"], case["kind"]
+        if kind == "fsize":
+            k = 0
+        else:
+            k, _ = place_obstacle(w, t, plan, [], kind)
+        rf = w.run(fsize0=(kind == "fsize"))
+        st = w.stat()
+        present = [n for n in plan if st.get(n) not in (None, "dir") and len(st[n][2]) > 0]
+        obs["fault"] = {"decision": rf["decision"], "rc": rf["rc"], "present_nonempty": present, "text": rf["text"][-200:]}
+        if kind != "fsize":
+            remove_obstacle(w, t)
+        r1 = w.run()
+        mi, di, _ = C.stale_files(w, desc)
+        obs["recovery"] = {"decision": r1["decision"], "missing": mi, "different": di}
+        obs["expected_present"] = plan[:k]
+    return obs, desc
+
+
+def eval_libgen(cases):
+    res = vlib.pmap(run_libgen, cases)
+    q = [sx([True, dec(o["fault"]["decision"]), False, True, dec(o["recovery"]["decision"]),
+             not o["recovery"]["missing"] and not o["recovery"]["different"], True]) for o, _ in res]
+    orc = vlib.run_runner("c17-oracle", q)
+    outs = []
+    for case, (o, desc), ok_s in zip(cases, res, orc):
+        # expectation from the write plan (the state machine without a record): the first k files written, Err, then a
+        # complete generation
+        corr = (o["fault"]["decision"] == "failed" and o["recovery"]["decision"] == "regenerated"
+                and set(o["expected_present"]) <= set(o["fault"]["present_nonempty"]) | set(["types.ts", "commands.ts", "events.ts", "index.ts"]) and
+                (case["timing"] == "after_edit" or sorted(o["fault"]["present_nonempty"]) == sorted(o["expected_present"])))
+        detail = {"impl": o}
+        if not (corr and ok_s == "true"):
+            detail["sources"] = {fl["path"]: C.render_rs(fl) for fl in desc["files"]}
+        outs.append(Outcome(case, corr, ok_s == "true", detail=detail, nontrivial=True))
+    return outs
 
 
 def build_all():
@@ -243,7 +389,11 @@ def run(rep):
     build_all()
     rng = random.Random(rep.seed)
     from tools.props.c08 import regressions
-    rep.add("corpus", eval_fault(regressions("C17")))
+    wit = []
+    for e in vlib.load_known_findings("C17"):
+        for c in e.get("witnesses", [e["witness"]]):
+            wit.append(dict(c))
+    rep.add("corpus", eval_fault(wit + regressions("C17")))
     cases = fault_cases(rep.tier, rng)
     dist = {}
     for c in cases:
@@ -258,9 +408,14 @@ def run(rep):
         dd[key] = dd.get(key, 0) + 1
     rep.extra["fault_outcomes"] = dd
     rep.add("fault", outs)
+    rep.add("libgen", eval_libgen(libgen_cases()))
 
 
 def replay(rep, payload):
     build_all()
     items = payload.get("disagreeing_cases") or [payload]
-    rep.add("fault", eval_fault([dict(it["case"]) for it in items]))
+    for it in items:
+        if it.get("stream") == "libgen":
+            rep.add("libgen", eval_libgen([dict(it["case"])]))
+        else:
+            rep.add(it.get("stream") or "fault", eval_fault([dict(it["case"])]))
